@@ -174,6 +174,7 @@ class PTA:
         self.global_writes: List[Tuple[FuncInfo, ast.AST, str]] = []   # 'global X' assignments inside functions
         self._objs: Dict[tuple, Obj] = {}
         self._locals_cache: Dict[str, Set[str]] = {}
+        self._pver: Dict[int, str] = {}
         self._globals_decl: Dict[str, Set[str]] = {}
         self._literal_cache: Dict[int, bool] = {}
         self.passes = 0
@@ -393,9 +394,54 @@ class PTA:
                     walk(ch)
             walk(f.node)
             names -= gl
+            names |= self._param_versions(f, names)
         self._locals_cache[q] = names
         self._globals_decl[q] = gl
         return names
+
+    def _param_versions(self, f: FuncInfo, names: Set[str]) -> Set[str]:
+        """Straight-line re-binding of a parameter (`bound = np.array(bound, dtype=...)` as a statement of the function
+        body itself, the idiom of a converting / validating helper) is given a variable of its own: uses after the
+        statement see the new binding only.  Exact when the parameter is re-bound nowhere else and is not captured by
+        a nested function; any other shape keeps the flow-insensitive treatment."""
+        out: Set[str] = set()
+        if not isinstance(f.node, (ast.FunctionDef, ast.AsyncFunctionDef)):
+            return out
+        params = [p for p in f.param_names]
+        body = f.node.body
+        for pn in params:
+            tops = [st for st in body if isinstance(st, ast.Assign) and len(st.targets) == 1 and
+                    isinstance(st.targets[0], ast.Name) and st.targets[0].id == pn]
+            if not tops:
+                continue
+            stores = [n for n in ast.walk(f.node) if isinstance(n, ast.Name) and n.id == pn and
+                      isinstance(n.ctx, (ast.Store, ast.Del))]
+            if len(stores) != len(tops):
+                continue            # also re-bound inside a branch / loop / with-target / augmented: not straight-line
+            if any(isinstance(n, (ast.AugAssign, ast.NamedExpr)) and isinstance(n.target, ast.Name) and n.target.id == pn
+                   for n in ast.walk(f.node)):
+                continue
+            nested = [n for n in ast.walk(f.node) if n is not f.node and
+                      isinstance(n, (ast.FunctionDef, ast.AsyncFunctionDef, ast.Lambda, ast.ClassDef))]
+            if any(isinstance(x, ast.Name) and x.id == pn for n in nested for x in ast.walk(n)):
+                continue
+            # version k for every Name node positioned after the k-th re-binding statement
+            ends = [(st.end_lineno, st.end_col_offset) for st in tops]
+            for n in ast.walk(f.node):
+                if not (isinstance(n, ast.Name) and n.id == pn):
+                    continue
+                if isinstance(n.ctx, ast.Store):
+                    k = [i for i, st in enumerate(tops) if st.targets[0] is n]
+                    ver = k[0] + 1 if k else 0
+                else:
+                    ver = sum(1 for e_ in ends if (n.lineno, n.col_offset) >= e_)
+                if ver:
+                    self._pver[id(n)] = f'{pn}#{ver}'
+                    out.add(f'{pn}#{ver}')
+        return out
+
+    def _vname(self, n: ast.Name) -> str:
+        return self._pver.get(id(n), n.id)
 
     def var_for_name(self, name: str, f: FuncInfo) -> Optional[tuple]:
         """Pointer variable written by a Name store in f."""
@@ -591,8 +637,20 @@ class PTA:
         elif isinstance(st, ast.With):
             for item in st.items:
                 v = self.ev(item.context_expr)
+                # context-manager protocol of repository classes: __enter__ gives the bound value, __exit__ is called
+                entered: Set[Obj] = set()
+                proto = False
+                for o in v:
+                    if o.kind in ('inst', 'ext_inst') and o.cls is not None:
+                        en, exi = o.cls.lookup('__enter__'), o.cls.lookup('__exit__')
+                        if en is not None:
+                            proto = True
+                            self.bind_call(en, o, [], {}, item.context_expr)
+                            entered |= self.get(('R', self._fq(en)))
+                        if exi is not None:
+                            self.bind_call(exi, o, [set(), set(), set()], {}, item.context_expr)
                 if item.optional_vars is not None:
-                    self.assign(item.optional_vars, v, st, None, record=False)
+                    self.assign(item.optional_vars, entered if proto else v, st, None, record=False)
             self.exec_block(st.body)
         elif isinstance(st, ast.Try):
             self.exec_block(st.body)
@@ -699,7 +757,7 @@ class PTA:
                record: bool = True, kind: Optional[str] = None):
         f = self._cur
         if isinstance(target, ast.Name):
-            var = self.var_for_name(target.id, f)
+            var = self.var_for_name(self._vname(target), f)
             if var is None:
                 note = f'{f.loc(st)}: store to unresolved name {target.id}'
                 if note not in self.unsupported:
@@ -781,7 +839,7 @@ class PTA:
         if isinstance(e, ast.Constant):
             return set()
         if isinstance(e, ast.Name):
-            return self.ev_name(e.id)
+            return self.ev_name(self._vname(e))
         if isinstance(e, ast.Attribute):
             return self.ev_attr(e)
         if isinstance(e, ast.Subscript):
